@@ -46,25 +46,51 @@ theorem sprintf_csi2 (d : Int → Str) (n m f : Int) :
       .str (27 :: 91 :: (d n ++ 59 :: (d m ++ strOfRune f))) := by
   simp [sprintfAux]
 
+/-! ### `encodeXterm`: the keypad block, then the rest
+
+The body is `[keypad application-mode block, keypad legend block] ++ coreBody`.  The two keypad statements are
+evaluated symbolically by `encodeXterm_prefix`; `coreBody` (everything from `xtermMods := …` on) is compared with
+`encodeXtermCore` for both shapes of the environment the keypad block leaves behind (`sub` = the key code was
+replaced by the key the keypad key stands for). -/
+
+/-- The body after the two keypad statements. -/
+def coreBody : Ss :=
+  match VaxisModel.Gen.TermBody.encodeXtermBody with
+  | .cons _ (.cons _ rest) => rest
+  | _ => .nil
+
+/-- The environment after the keypad block: `val, ok` of the application-mode look-up (`s1`, `b1`), `val, ok` of the
+    legend look-up and, when it hit (`sub`), the re-assigned `key.Keycode`. -/
+def coreEnv (sub : Bool) (key : Key) (kc : Int) (b1 : Bool) (s1 : Str) (pam ckm : Bool) : Env :=
+  (if sub then [("key.Keycode", V.int kc), ("ok", V.bool true), ("val", V.int kc)] else [("ok", V.bool false), ("val", V.int 0)]) ++
+  ("ok", V.bool b1) :: ("val", V.str s1) ::
+    VaxisModel.Model.GoInterp.bind "key" (.struct (VaxisModel.Model.KeyBody.keyFields key)) [("deckpam", .bool pam), ("decckm", .bool ckm)]
+
+def coreGen (u : Uni) (sub : Bool) (key : Key) (kc : Int) (b1 : Bool) (s1 : Str) (pam ckm : Bool) : Option Str :=
+  (execSs (ctx u VaxisModel.Model.KeyBody.noFuncs) coreBody { env := coreEnv sub key kc b1 s1 pam ckm }).retStr
+
 set_option maxHeartbeats 400000 in
 set_option maxRecDepth 100000 in
 set_option linter.unusedSimpArgs false in
-theorem encodeXterm_body_mods (u : Uni) (key : Key) (pam ckm : Bool)
+theorem core_body_mods_nosub (u : Uni) (key : Key) (kc : Int) (b1 : Bool) (s1 : Str) (pam ckm : Bool)
+    (hsub : false = false → key.keycode = kc)
     (hm : ¬ (key.mods &&& ModShift ||| key.mods &&& ModAlt ||| key.mods &&& ModCtrl = 0)) :
-    encodeXtermGen u key pam ckm = some (encodeXterm u key pam ckm) := by
-  unfold encodeXtermGen VaxisModel.Gen.TermBody.encodeXtermBody
+    coreGen u false key kc b1 s1 pam ckm = some (encodeXtermCore u { key with keycode := kc } pam ckm) := by
+  unfold coreGen coreBody coreEnv VaxisModel.Gen.TermBody.encodeXtermBody
   simp (config := {maxSteps := 4000000}) only [Ss.ofList, Es.ofList, Cs.ofList, execSs, execS, execCs, execDefault, labelHit, isTrue_bool, lhsNames, evalEs, evalE,
-    VaxisModel.Model.GoInterp.bind, VaxisModel.Model.KeyBody.keyFields, zeroOf,
-    assignVals, hasErr, bindAll, List.lookup, List.map, List.append, String.reduceEq, String.reduceBEq, String.reduceAppend, ctx, termMaps, strTable, mapIndex, V.asKey,
-    reduceIte, or_false, false_or, or_self, List.length, Option.map, List.cons_append, List.nil_append, Bool.or_false, List.any,
-    andThen_norm, andThen_ret, andThen_err, andThen_ite, afterSwitch_ite, afterSwitch_ret, afterSwitch_norm, branch_bool,
-    binop_land, binop_eq_int, binop_eq_str, binop_eq_bool, binop_ne_int, binop_ne_str, binop_add, binop_sub, binop_band, binop_bor, binop_lt, binop_gt, binop_ge, binop_le, unop_not,
-    Bool.false_eq_true, const_vModShift, const_vModAlt, const_vModCtrl, const_MaxRune, const_vKeyTab,
-    retStr_ite, retStr_ret, callStmt, callFn_int, callFn_string, callFn_toUpper, callFn_isLower, callFn_newBuffer, callFn_bufString,
-    VaxisModel.Model.KeyBody.noFuncs, Int.toNat_natCast, lookupKey_map1, Int.natCast_eq_zero, decide_eq_true_eq, hm, decide_false, callFn_sprintf, sprintf_csi2]
-  unfold encodeXterm encodeTables
+  VaxisModel.Model.GoInterp.bind, VaxisModel.Model.KeyBody.keyFields, zeroOf,
+  assignVals, hasErr, bindAll, List.lookup, List.map, List.append, String.reduceEq, String.reduceBEq, String.reduceAppend, ctx, termMaps, strTable, mapIndex, V.asKey,
+  reduceIte, or_false, false_or, or_self, List.length, Option.map, List.cons_append, List.nil_append, Bool.or_false, List.any,
+  andThen_norm, andThen_ret, andThen_err, andThen_ite, afterSwitch_ite, afterSwitch_ret, afterSwitch_norm, branch_bool,
+  binop_land, binop_eq_int, binop_eq_str, binop_eq_bool, binop_ne_int, binop_ne_str, binop_add, binop_sub, binop_band, binop_bor, binop_lt, binop_gt, binop_ge, binop_le, unop_not,
+  Bool.false_eq_true, const_vModShift, const_vModAlt, const_vModCtrl, const_MaxRune, const_vKeyTab,
+  retStr_ite, retStr_ret, callStmt, callFn_int, callFn_string, callFn_toUpper, callFn_isLower, callFn_newBuffer, callFn_bufString,
+  VaxisModel.Model.KeyBody.noFuncs, Int.toNat_natCast, lookupKey_map1, Int.natCast_eq_zero, decide_eq_true_eq, hm, decide_false, callFn_sprintf, sprintf_csi2]
+  unfold encodeXtermCore encodeTables
   dsimp only
-  generalize lookup key.keycode xtermKeymap = r6
+  try (have hk := hsub rfl; rw [hk]; clear hk)
+  clear hsub
+  generalize lookup kc xtermKeymap = r6
   delta ctrlCases ctrlDefaultRange
   simp only [lookup, hm, reduceIte]
   cases r6 with
@@ -85,41 +111,117 @@ theorem encodeXterm_body_mods (u : Uni) (key : Key) (pam ckm : Bool)
     have s127 : strOfRune 127 = [127] := by decide
     simp only [s27, s49, s0, s28, s29, s30, s31, s127, Bool.and_eq_true, decide_eq_true_eq, Bool.not_eq_true',
       decide_eq_false_iff_not, Int.natCast_inj, ne_eq, ge_iff_le, Bool.not_eq_eq_eq_not, Bool.not_true,
-      @eq_comm _ (49 : Int) key.keycode, @eq_comm _ (50 : Int) key.keycode, @eq_comm _ (51 : Int) key.keycode,
-      @eq_comm _ (52 : Int) key.keycode, @eq_comm _ (53 : Int) key.keycode, @eq_comm _ (54 : Int) key.keycode,
-      @eq_comm _ (55 : Int) key.keycode, @eq_comm _ (56 : Int) key.keycode, @eq_comm _ (57 : Int) key.keycode]
+      @eq_comm _ (49 : Int) kc, @eq_comm _ (50 : Int) kc, @eq_comm _ (51 : Int) kc,
+      @eq_comm _ (52 : Int) kc, @eq_comm _ (53 : Int) kc, @eq_comm _ (54 : Int) kc,
+      @eq_comm _ (55 : Int) kc, @eq_comm _ (56 : Int) kc, @eq_comm _ (57 : Int) kc]
     clear s27 s49 s0 s28 s29 s30 s31 s127 hm
     simp only [and_assoc]
-    by_cases hTab : key.keycode = KeyTab ∧ key.mods &&& ModShift ||| key.mods &&& ModAlt ||| key.mods &&& ModCtrl = ModShift
+    by_cases hTab : kc = KeyTab ∧ key.mods &&& ModShift ||| key.mods &&& ModAlt ||| key.mods &&& ModCtrl = ModShift
     · simp only [hTab, and_self, reduceIte]
     · simp only [hTab, reduceIte]
       bc hText : ¬key.text = [] ∧ key.mods &&& ModCtrl = 0 ∧ key.mods &&& ModAlt = 0
-      bc hKc : key.keycode < maxRune
+      bc hKc : kc < maxRune
       bc hAlt : (key.mods &&& ModShift ||| key.mods &&& ModAlt ||| key.mods &&& ModCtrl) &&& ModAlt = 0
       bc hCtrl : (key.mods &&& ModShift ||| key.mods &&& ModAlt ||| key.mods &&& ModCtrl) &&& ModCtrl = 0
-      bc hLow : 97 ≤ key.keycode ∧ key.keycode ≤ 122
-      bc h49 : key.keycode = 49
-      bc h50 : key.keycode = 50
-      bc h51 : key.keycode = 51
-      bc h52 : key.keycode = 52
-      bc h53 : key.keycode = 53
-      bc h54 : key.keycode = 54
-      bc h55 : key.keycode = 55
-      bc h56 : key.keycode = 56
-      bc h57 : key.keycode = 57
-      bc hRange : 64 ≤ key.keycode ∧ key.keycode < 96
+      bc hLow : 97 ≤ kc ∧ kc ≤ 122
+      bc h49 : kc = 49
+      bc h50 : kc = 50
+      bc h51 : kc = 51
+      bc h52 : kc = 52
+      bc h53 : kc = 53
+      bc h54 : kc = 54
+      bc h55 : kc = 55
+      bc h56 : kc = 56
+      bc h57 : kc = 57
+      bc hRange : 64 ≤ kc ∧ kc < 96
       bc hShift : (key.mods &&& ModShift ||| key.mods &&& ModAlt ||| key.mods &&& ModCtrl) &&& ModShift = 0
       bc hSh : key.shifted > 0
 
+set_option maxHeartbeats 400000 in
+set_option maxRecDepth 100000 in
+set_option linter.unusedSimpArgs false in
+theorem core_body_mods_sub (u : Uni) (key : Key) (kc : Int) (b1 : Bool) (s1 : Str) (pam ckm : Bool)
+    (_hsub : true = false → key.keycode = kc)
+    (hm : ¬ (key.mods &&& ModShift ||| key.mods &&& ModAlt ||| key.mods &&& ModCtrl = 0)) :
+    coreGen u true key kc b1 s1 pam ckm = some (encodeXtermCore u { key with keycode := kc } pam ckm) := by
+  unfold coreGen coreBody coreEnv VaxisModel.Gen.TermBody.encodeXtermBody
+  simp (config := {maxSteps := 4000000}) only [Ss.ofList, Es.ofList, Cs.ofList, execSs, execS, execCs, execDefault, labelHit, isTrue_bool, lhsNames, evalEs, evalE,
+  VaxisModel.Model.GoInterp.bind, VaxisModel.Model.KeyBody.keyFields, zeroOf,
+  assignVals, hasErr, bindAll, List.lookup, List.map, List.append, String.reduceEq, String.reduceBEq, String.reduceAppend, ctx, termMaps, strTable, mapIndex, V.asKey,
+  reduceIte, or_false, false_or, or_self, List.length, Option.map, List.cons_append, List.nil_append, Bool.or_false, List.any,
+  andThen_norm, andThen_ret, andThen_err, andThen_ite, afterSwitch_ite, afterSwitch_ret, afterSwitch_norm, branch_bool,
+  binop_land, binop_eq_int, binop_eq_str, binop_eq_bool, binop_ne_int, binop_ne_str, binop_add, binop_sub, binop_band, binop_bor, binop_lt, binop_gt, binop_ge, binop_le, unop_not,
+  Bool.false_eq_true, const_vModShift, const_vModAlt, const_vModCtrl, const_MaxRune, const_vKeyTab,
+  retStr_ite, retStr_ret, callStmt, callFn_int, callFn_string, callFn_toUpper, callFn_isLower, callFn_newBuffer, callFn_bufString,
+  VaxisModel.Model.KeyBody.noFuncs, Int.toNat_natCast, lookupKey_map1, Int.natCast_eq_zero, decide_eq_true_eq, hm, decide_false, callFn_sprintf, sprintf_csi2]
+  unfold encodeXtermCore encodeTables
+  dsimp only
+  generalize lookup kc xtermKeymap = r6
+  delta ctrlCases ctrlDefaultRange
+  simp only [lookup, hm, reduceIte]
+  cases r6 with
+  | some nf =>
+    obtain ⟨n, f⟩ := nf
+    simp only [Option.isSome, Option.getD, reduceIte, Bool.false_eq_true]
+    repeat' split
+    all_goals (first | rfl | (simp_all; done) | grind)
+  | none =>
+    simp only [Option.isSome, Option.getD, reduceIte, Bool.false_eq_true]
+    have s27 : strOfRune 27 = [27] := by decide
+    have s49 : strOfRune 49 = [49] := by decide
+    have s0 : strOfRune 0 = [0] := by decide
+    have s28 : strOfRune 28 = [28] := by decide
+    have s29 : strOfRune 29 = [29] := by decide
+    have s30 : strOfRune 30 = [30] := by decide
+    have s31 : strOfRune 31 = [31] := by decide
+    have s127 : strOfRune 127 = [127] := by decide
+    simp only [s27, s49, s0, s28, s29, s30, s31, s127, Bool.and_eq_true, decide_eq_true_eq, Bool.not_eq_true',
+      decide_eq_false_iff_not, Int.natCast_inj, ne_eq, ge_iff_le, Bool.not_eq_eq_eq_not, Bool.not_true,
+      @eq_comm _ (49 : Int) kc, @eq_comm _ (50 : Int) kc, @eq_comm _ (51 : Int) kc,
+      @eq_comm _ (52 : Int) kc, @eq_comm _ (53 : Int) kc, @eq_comm _ (54 : Int) kc,
+      @eq_comm _ (55 : Int) kc, @eq_comm _ (56 : Int) kc, @eq_comm _ (57 : Int) kc]
+    clear s27 s49 s0 s28 s29 s30 s31 s127 hm
+    simp only [and_assoc]
+    by_cases hTab : kc = KeyTab ∧ key.mods &&& ModShift ||| key.mods &&& ModAlt ||| key.mods &&& ModCtrl = ModShift
+    · simp only [hTab, and_self, reduceIte]
+    · simp only [hTab, reduceIte]
+      bc hText : ¬key.text = [] ∧ key.mods &&& ModCtrl = 0 ∧ key.mods &&& ModAlt = 0
+      bc hKc : kc < maxRune
+      bc hAlt : (key.mods &&& ModShift ||| key.mods &&& ModAlt ||| key.mods &&& ModCtrl) &&& ModAlt = 0
+      bc hCtrl : (key.mods &&& ModShift ||| key.mods &&& ModAlt ||| key.mods &&& ModCtrl) &&& ModCtrl = 0
+      bc hLow : 97 ≤ kc ∧ kc ≤ 122
+      bc h49 : kc = 49
+      bc h50 : kc = 50
+      bc h51 : kc = 51
+      bc h52 : kc = 52
+      bc h53 : kc = 53
+      bc h54 : kc = 54
+      bc h55 : kc = 55
+      bc h56 : kc = 56
+      bc h57 : kc = 57
+      bc hRange : 64 ≤ kc ∧ kc < 96
+      bc hShift : (key.mods &&& ModShift ||| key.mods &&& ModAlt ||| key.mods &&& ModCtrl) &&& ModShift = 0
+      bc hSh : key.shifted > 0
+
+theorem core_body_mods (u : Uni) (sub : Bool) (key : Key) (kc : Int) (b1 : Bool) (s1 : Str) (pam ckm : Bool)
+    (hsub : sub = false → key.keycode = kc)
+    (hm : ¬ (key.mods &&& ModShift ||| key.mods &&& ModAlt ||| key.mods &&& ModCtrl = 0)) :
+    coreGen u sub key kc b1 s1 pam ckm = some (encodeXtermCore u { key with keycode := kc } pam ckm) := by
+  cases sub
+  · exact core_body_mods_nosub u key kc b1 s1 pam ckm hsub hm
+  · exact core_body_mods_sub u key kc b1 s1 pam ckm hsub hm
 
 set_option maxHeartbeats 400000 in
 set_option maxRecDepth 100000 in
 set_option linter.unusedSimpArgs false in
-theorem encodeXterm_body_plain_false_false (u : Uni) (key : Key)
+theorem core_body_plain_false_false (u : Uni) (sub : Bool) (key : Key) (kc : Int) (b1 : Bool) (s1 : Str)
+    (hsub : sub = false → key.keycode = kc)
     (h0 : key.mods &&& ModShift ||| key.mods &&& ModAlt ||| key.mods &&& ModCtrl = 0) :
-    encodeXtermGen u key false false = some (encodeXterm u key false false) := by
-  unfold encodeXtermGen VaxisModel.Gen.TermBody.encodeXtermBody
-  simp (config := {maxSteps := 4000000}) only [Ss.ofList, Es.ofList, Cs.ofList, execSs, execS, execCs, execDefault, labelHit, isTrue_bool, lhsNames, evalEs, evalE,
+    coreGen u sub key kc b1 s1 false false = some (encodeXtermCore u { key with keycode := kc } false false) := by
+  unfold coreGen coreBody coreEnv VaxisModel.Gen.TermBody.encodeXtermBody
+  cases sub
+  all_goals
+   (simp (config := {maxSteps := 4000000}) only [Ss.ofList, Es.ofList, Cs.ofList, execSs, execS, execCs, execDefault, labelHit, isTrue_bool, lhsNames, evalEs, evalE,
     VaxisModel.Model.GoInterp.bind, VaxisModel.Model.KeyBody.keyFields, zeroOf,
     assignVals, hasErr, bindAll, List.lookup, List.map, List.append, String.reduceEq, String.reduceBEq, String.reduceAppend, ctx, termMaps, strTable, mapIndex, V.asKey,
     reduceIte, or_false, false_or, or_self, List.length, Option.map, List.cons_append, List.nil_append, Bool.or_false, List.any,
@@ -128,28 +230,33 @@ theorem encodeXterm_body_plain_false_false (u : Uni) (key : Key)
     Bool.false_eq_true, const_vModShift, const_vModAlt, const_vModCtrl, const_MaxRune, const_vKeyTab,
     retStr_ite, retStr_ret, callStmt, callFn_int, callFn_string, callFn_toUpper, callFn_isLower, callFn_newBuffer, callFn_bufString,
     VaxisModel.Model.KeyBody.noFuncs, Int.toNat_natCast, lookupKey_map1, Int.natCast_eq_zero, decide_eq_true_eq, h0, Nat.zero_and, callFn_sprintf, sprintf_csi2, Int.natCast_zero, Bool.true_eq_false, Int.toNat_zero, decide_true, Bool.not_true, Bool.not_false, Int.zero_add]
-  unfold encodeXterm encodeTables
-  dsimp only
-  simp only [Bool.false_eq_true, reduceIte]
-  generalize lookup key.keycode keymap = r1
-  generalize lookup key.keycode xtermKeymap = r6
-  generalize lookup key.keycode cursorKeysNormalMode = r2
-  generalize lookup key.keycode numericKeymap = r3
-  simp only [h0, reduceIte, Bool.false_eq_true, Nat.zero_and, ne_eq, not_true_eq_false]
-  have hs : ¬ ((0 : Nat) = ModShift) := by decide
-  have hs' : ¬ ((0 : Int) = ((ModShift : Nat) : Int)) := by decide
-  cases r1 <;> cases r2 <;> cases r3 <;> cases r6 <;>
-    simp only [Option.isSome, Option.getD, reduceIte, Bool.false_eq_true, hs, hs', and_false, decide_false, Bool.and_false, List.nil_append, List.cons_append, List.append_assoc, Int.natCast_zero, Int.zero_add] <;>
-    (try rfl) <;> (try (repeat' split) <;> simp_all)
+    unfold encodeXtermCore encodeTables
+    dsimp only
+    try (have hk := hsub rfl; rw [hk]; clear hk)
+    clear hsub
+    simp only [Bool.false_eq_true, reduceIte]
+    generalize lookup kc keymap = r1
+    generalize lookup kc xtermKeymap = r6
+    generalize lookup kc cursorKeysNormalMode = r2
+    generalize lookup kc numericKeymap = r3
+    simp only [h0, reduceIte, Bool.false_eq_true, Nat.zero_and, ne_eq, not_true_eq_false]
+    have hs : ¬ ((0 : Nat) = ModShift) := by decide
+    have hs' : ¬ ((0 : Int) = ((ModShift : Nat) : Int)) := by decide
+    cases r1 <;> cases r2 <;> cases r3 <;> cases r6 <;>
+      simp only [Option.isSome, Option.getD, reduceIte, Bool.false_eq_true, hs, hs', and_false, decide_false, Bool.and_false, List.nil_append, List.cons_append, List.append_assoc, Int.natCast_zero, Int.zero_add] <;>
+      (try rfl) <;> (try (repeat' split) <;> simp_all))
 
 set_option maxHeartbeats 400000 in
 set_option maxRecDepth 100000 in
 set_option linter.unusedSimpArgs false in
-theorem encodeXterm_body_plain_true_false (u : Uni) (key : Key)
+theorem core_body_plain_false_true (u : Uni) (sub : Bool) (key : Key) (kc : Int) (b1 : Bool) (s1 : Str)
+    (hsub : sub = false → key.keycode = kc)
     (h0 : key.mods &&& ModShift ||| key.mods &&& ModAlt ||| key.mods &&& ModCtrl = 0) :
-    encodeXtermGen u key true false = some (encodeXterm u key true false) := by
-  unfold encodeXtermGen VaxisModel.Gen.TermBody.encodeXtermBody
-  simp (config := {maxSteps := 4000000}) only [Ss.ofList, Es.ofList, Cs.ofList, execSs, execS, execCs, execDefault, labelHit, isTrue_bool, lhsNames, evalEs, evalE,
+    coreGen u sub key kc b1 s1 false true = some (encodeXtermCore u { key with keycode := kc } false true) := by
+  unfold coreGen coreBody coreEnv VaxisModel.Gen.TermBody.encodeXtermBody
+  cases sub
+  all_goals
+   (simp (config := {maxSteps := 4000000}) only [Ss.ofList, Es.ofList, Cs.ofList, execSs, execS, execCs, execDefault, labelHit, isTrue_bool, lhsNames, evalEs, evalE,
     VaxisModel.Model.GoInterp.bind, VaxisModel.Model.KeyBody.keyFields, zeroOf,
     assignVals, hasErr, bindAll, List.lookup, List.map, List.append, String.reduceEq, String.reduceBEq, String.reduceAppend, ctx, termMaps, strTable, mapIndex, V.asKey,
     reduceIte, or_false, false_or, or_self, List.length, Option.map, List.cons_append, List.nil_append, Bool.or_false, List.any,
@@ -158,28 +265,33 @@ theorem encodeXterm_body_plain_true_false (u : Uni) (key : Key)
     Bool.false_eq_true, const_vModShift, const_vModAlt, const_vModCtrl, const_MaxRune, const_vKeyTab,
     retStr_ite, retStr_ret, callStmt, callFn_int, callFn_string, callFn_toUpper, callFn_isLower, callFn_newBuffer, callFn_bufString,
     VaxisModel.Model.KeyBody.noFuncs, Int.toNat_natCast, lookupKey_map1, Int.natCast_eq_zero, decide_eq_true_eq, h0, Nat.zero_and, callFn_sprintf, sprintf_csi2, Int.natCast_zero, Bool.true_eq_false, Int.toNat_zero, decide_true, Bool.not_true, Bool.not_false, Int.zero_add]
-  unfold encodeXterm encodeTables
-  dsimp only
-  simp only [Bool.false_eq_true, reduceIte]
-  generalize lookup key.keycode keymap = r1
-  generalize lookup key.keycode xtermKeymap = r6
-  generalize lookup key.keycode cursorKeysNormalMode = r2
-  generalize lookup key.keycode applicationKeymap = r3
-  simp only [h0, reduceIte, Bool.false_eq_true, Nat.zero_and, ne_eq, not_true_eq_false]
-  have hs : ¬ ((0 : Nat) = ModShift) := by decide
-  have hs' : ¬ ((0 : Int) = ((ModShift : Nat) : Int)) := by decide
-  cases r1 <;> cases r2 <;> cases r3 <;> cases r6 <;>
-    simp only [Option.isSome, Option.getD, reduceIte, Bool.false_eq_true, hs, hs', and_false, decide_false, Bool.and_false, List.nil_append, List.cons_append, List.append_assoc, Int.natCast_zero, Int.zero_add] <;>
-    (try rfl) <;> (try (repeat' split) <;> simp_all)
+    unfold encodeXtermCore encodeTables
+    dsimp only
+    try (have hk := hsub rfl; rw [hk]; clear hk)
+    clear hsub
+    simp only [Bool.false_eq_true, reduceIte]
+    generalize lookup kc keymap = r1
+    generalize lookup kc xtermKeymap = r6
+    generalize lookup kc cursorKeysApplicationMode = r2
+    generalize lookup kc numericKeymap = r3
+    simp only [h0, reduceIte, Bool.false_eq_true, Nat.zero_and, ne_eq, not_true_eq_false]
+    have hs : ¬ ((0 : Nat) = ModShift) := by decide
+    have hs' : ¬ ((0 : Int) = ((ModShift : Nat) : Int)) := by decide
+    cases r1 <;> cases r2 <;> cases r3 <;> cases r6 <;>
+      simp only [Option.isSome, Option.getD, reduceIte, Bool.false_eq_true, hs, hs', and_false, decide_false, Bool.and_false, List.nil_append, List.cons_append, List.append_assoc, Int.natCast_zero, Int.zero_add] <;>
+      (try rfl) <;> (try (repeat' split) <;> simp_all))
 
 set_option maxHeartbeats 400000 in
 set_option maxRecDepth 100000 in
 set_option linter.unusedSimpArgs false in
-theorem encodeXterm_body_plain_false_true (u : Uni) (key : Key)
+theorem core_body_plain_true_false (u : Uni) (sub : Bool) (key : Key) (kc : Int) (b1 : Bool) (s1 : Str)
+    (hsub : sub = false → key.keycode = kc)
     (h0 : key.mods &&& ModShift ||| key.mods &&& ModAlt ||| key.mods &&& ModCtrl = 0) :
-    encodeXtermGen u key false true = some (encodeXterm u key false true) := by
-  unfold encodeXtermGen VaxisModel.Gen.TermBody.encodeXtermBody
-  simp (config := {maxSteps := 4000000}) only [Ss.ofList, Es.ofList, Cs.ofList, execSs, execS, execCs, execDefault, labelHit, isTrue_bool, lhsNames, evalEs, evalE,
+    coreGen u sub key kc b1 s1 true false = some (encodeXtermCore u { key with keycode := kc } true false) := by
+  unfold coreGen coreBody coreEnv VaxisModel.Gen.TermBody.encodeXtermBody
+  cases sub
+  all_goals
+   (simp (config := {maxSteps := 4000000}) only [Ss.ofList, Es.ofList, Cs.ofList, execSs, execS, execCs, execDefault, labelHit, isTrue_bool, lhsNames, evalEs, evalE,
     VaxisModel.Model.GoInterp.bind, VaxisModel.Model.KeyBody.keyFields, zeroOf,
     assignVals, hasErr, bindAll, List.lookup, List.map, List.append, String.reduceEq, String.reduceBEq, String.reduceAppend, ctx, termMaps, strTable, mapIndex, V.asKey,
     reduceIte, or_false, false_or, or_self, List.length, Option.map, List.cons_append, List.nil_append, Bool.or_false, List.any,
@@ -188,28 +300,33 @@ theorem encodeXterm_body_plain_false_true (u : Uni) (key : Key)
     Bool.false_eq_true, const_vModShift, const_vModAlt, const_vModCtrl, const_MaxRune, const_vKeyTab,
     retStr_ite, retStr_ret, callStmt, callFn_int, callFn_string, callFn_toUpper, callFn_isLower, callFn_newBuffer, callFn_bufString,
     VaxisModel.Model.KeyBody.noFuncs, Int.toNat_natCast, lookupKey_map1, Int.natCast_eq_zero, decide_eq_true_eq, h0, Nat.zero_and, callFn_sprintf, sprintf_csi2, Int.natCast_zero, Bool.true_eq_false, Int.toNat_zero, decide_true, Bool.not_true, Bool.not_false, Int.zero_add]
-  unfold encodeXterm encodeTables
-  dsimp only
-  simp only [Bool.false_eq_true, reduceIte]
-  generalize lookup key.keycode keymap = r1
-  generalize lookup key.keycode xtermKeymap = r6
-  generalize lookup key.keycode cursorKeysApplicationMode = r2
-  generalize lookup key.keycode numericKeymap = r3
-  simp only [h0, reduceIte, Bool.false_eq_true, Nat.zero_and, ne_eq, not_true_eq_false]
-  have hs : ¬ ((0 : Nat) = ModShift) := by decide
-  have hs' : ¬ ((0 : Int) = ((ModShift : Nat) : Int)) := by decide
-  cases r1 <;> cases r2 <;> cases r3 <;> cases r6 <;>
-    simp only [Option.isSome, Option.getD, reduceIte, Bool.false_eq_true, hs, hs', and_false, decide_false, Bool.and_false, List.nil_append, List.cons_append, List.append_assoc, Int.natCast_zero, Int.zero_add] <;>
-    (try rfl) <;> (try (repeat' split) <;> simp_all)
+    unfold encodeXtermCore encodeTables
+    dsimp only
+    try (have hk := hsub rfl; rw [hk]; clear hk)
+    clear hsub
+    simp only [Bool.false_eq_true, reduceIte]
+    generalize lookup kc keymap = r1
+    generalize lookup kc xtermKeymap = r6
+    generalize lookup kc cursorKeysNormalMode = r2
+    generalize lookup kc applicationKeymap = r3
+    simp only [h0, reduceIte, Bool.false_eq_true, Nat.zero_and, ne_eq, not_true_eq_false]
+    have hs : ¬ ((0 : Nat) = ModShift) := by decide
+    have hs' : ¬ ((0 : Int) = ((ModShift : Nat) : Int)) := by decide
+    cases r1 <;> cases r2 <;> cases r3 <;> cases r6 <;>
+      simp only [Option.isSome, Option.getD, reduceIte, Bool.false_eq_true, hs, hs', and_false, decide_false, Bool.and_false, List.nil_append, List.cons_append, List.append_assoc, Int.natCast_zero, Int.zero_add] <;>
+      (try rfl) <;> (try (repeat' split) <;> simp_all))
 
 set_option maxHeartbeats 400000 in
 set_option maxRecDepth 100000 in
 set_option linter.unusedSimpArgs false in
-theorem encodeXterm_body_plain_true_true (u : Uni) (key : Key)
+theorem core_body_plain_true_true (u : Uni) (sub : Bool) (key : Key) (kc : Int) (b1 : Bool) (s1 : Str)
+    (hsub : sub = false → key.keycode = kc)
     (h0 : key.mods &&& ModShift ||| key.mods &&& ModAlt ||| key.mods &&& ModCtrl = 0) :
-    encodeXtermGen u key true true = some (encodeXterm u key true true) := by
-  unfold encodeXtermGen VaxisModel.Gen.TermBody.encodeXtermBody
-  simp (config := {maxSteps := 4000000}) only [Ss.ofList, Es.ofList, Cs.ofList, execSs, execS, execCs, execDefault, labelHit, isTrue_bool, lhsNames, evalEs, evalE,
+    coreGen u sub key kc b1 s1 true true = some (encodeXtermCore u { key with keycode := kc } true true) := by
+  unfold coreGen coreBody coreEnv VaxisModel.Gen.TermBody.encodeXtermBody
+  cases sub
+  all_goals
+   (simp (config := {maxSteps := 4000000}) only [Ss.ofList, Es.ofList, Cs.ofList, execSs, execS, execCs, execDefault, labelHit, isTrue_bool, lhsNames, evalEs, evalE,
     VaxisModel.Model.GoInterp.bind, VaxisModel.Model.KeyBody.keyFields, zeroOf,
     assignVals, hasErr, bindAll, List.lookup, List.map, List.append, String.reduceEq, String.reduceBEq, String.reduceAppend, ctx, termMaps, strTable, mapIndex, V.asKey,
     reduceIte, or_false, false_or, or_self, List.length, Option.map, List.cons_append, List.nil_append, Bool.or_false, List.any,
@@ -218,19 +335,88 @@ theorem encodeXterm_body_plain_true_true (u : Uni) (key : Key)
     Bool.false_eq_true, const_vModShift, const_vModAlt, const_vModCtrl, const_MaxRune, const_vKeyTab,
     retStr_ite, retStr_ret, callStmt, callFn_int, callFn_string, callFn_toUpper, callFn_isLower, callFn_newBuffer, callFn_bufString,
     VaxisModel.Model.KeyBody.noFuncs, Int.toNat_natCast, lookupKey_map1, Int.natCast_eq_zero, decide_eq_true_eq, h0, Nat.zero_and, callFn_sprintf, sprintf_csi2, Int.natCast_zero, Bool.true_eq_false, Int.toNat_zero, decide_true, Bool.not_true, Bool.not_false, Int.zero_add]
-  unfold encodeXterm encodeTables
-  dsimp only
-  simp only [Bool.false_eq_true, reduceIte]
-  generalize lookup key.keycode keymap = r1
-  generalize lookup key.keycode xtermKeymap = r6
-  generalize lookup key.keycode cursorKeysApplicationMode = r2
-  generalize lookup key.keycode applicationKeymap = r3
-  simp only [h0, reduceIte, Bool.false_eq_true, Nat.zero_and, ne_eq, not_true_eq_false]
-  have hs : ¬ ((0 : Nat) = ModShift) := by decide
-  have hs' : ¬ ((0 : Int) = ((ModShift : Nat) : Int)) := by decide
-  cases r1 <;> cases r2 <;> cases r3 <;> cases r6 <;>
-    simp only [Option.isSome, Option.getD, reduceIte, Bool.false_eq_true, hs, hs', and_false, decide_false, Bool.and_false, List.nil_append, List.cons_append, List.append_assoc, Int.natCast_zero, Int.zero_add] <;>
-    (try rfl) <;> (try (repeat' split) <;> simp_all)
+    unfold encodeXtermCore encodeTables
+    dsimp only
+    try (have hk := hsub rfl; rw [hk]; clear hk)
+    clear hsub
+    simp only [Bool.false_eq_true, reduceIte]
+    generalize lookup kc keymap = r1
+    generalize lookup kc xtermKeymap = r6
+    generalize lookup kc cursorKeysApplicationMode = r2
+    generalize lookup kc applicationKeymap = r3
+    simp only [h0, reduceIte, Bool.false_eq_true, Nat.zero_and, ne_eq, not_true_eq_false]
+    have hs : ¬ ((0 : Nat) = ModShift) := by decide
+    have hs' : ¬ ((0 : Int) = ((ModShift : Nat) : Int)) := by decide
+    cases r1 <;> cases r2 <;> cases r3 <;> cases r6 <;>
+      simp only [Option.isSome, Option.getD, reduceIte, Bool.false_eq_true, hs, hs', and_false, decide_false, Bool.and_false, List.nil_append, List.cons_append, List.append_assoc, Int.natCast_zero, Int.zero_add] <;>
+      (try rfl) <;> (try (repeat' split) <;> simp_all))
+
+/-- Both shapes, all modes, all modifier sets: the body from `xtermMods := …` on is `encodeXtermCore`. -/
+theorem core_body (u : Uni) (sub : Bool) (key : Key) (kc : Int) (b1 : Bool) (s1 : Str) (pam ckm : Bool)
+    (hsub : sub = false → key.keycode = kc) :
+    coreGen u sub key kc b1 s1 pam ckm = some (encodeXtermCore u { key with keycode := kc } pam ckm) := by
+  by_cases h0 : key.mods &&& ModShift ||| key.mods &&& ModAlt ||| key.mods &&& ModCtrl = 0
+  · cases pam <;> cases ckm
+    · exact core_body_plain_false_false u sub key kc b1 s1 hsub h0
+    · exact core_body_plain_false_true u sub key kc b1 s1 hsub h0
+    · exact core_body_plain_true_false u sub key kc b1 s1 hsub h0
+    · exact core_body_plain_true_true u sub key kc b1 s1 hsub h0
+  · exact core_body_mods u sub key kc b1 s1 pam ckm hsub h0
+
+/-- The two keypad statements at the head of the body. -/
+def kpA : S := match VaxisModel.Gen.TermBody.encodeXtermBody with | .cons a _ => a | _ => .brk
+def kpB : S := match VaxisModel.Gen.TermBody.encodeXtermBody with | .cons _ (.cons b _) => b | _ => .brk
+
+theorem body_split : VaxisModel.Gen.TermBody.encodeXtermBody = .cons kpA (.cons kpB coreBody) := rfl
+
+theorem exec_two (c : Ctx) (a b : S) (rest : Ss) (st : St) :
+    execSs c (.cons a (.cons b rest)) st =
+      (execS c a st).andThen (fun st1 => (execS c b st1).andThen (fun st2 => execSs c rest st2)) := by
+  simp only [execSs]
+
+theorem lookupKey_map_id {β : Type} (k : Int) (t : List (Int × β)) :
+    lookupKey [k] (t.map fun e => ([e.1], e.2)) = lookup k t := by
+  have := lookupKey_map1 k t (fun x : β => x)
+  simpa using this
+
+theorem const_vModNumLock : List.lookup "vaxis.ModNumLock" termConstEnv = some (.int (ModNumLock : Nat)) := rfl
+
+set_option maxHeartbeats 400000 in
+set_option maxRecDepth 100000 in
+set_option linter.unusedSimpArgs false in
+theorem encodeXterm_body (u : Uni) (key : Key) (pam ckm : Bool) :
+    encodeXtermGen u key pam ckm = some (encodeXterm u key pam ckm) := by
+  unfold encodeXtermGen
+  rw [body_split, exec_two]
+  unfold kpA kpB VaxisModel.Gen.TermBody.encodeXtermBody
+  simp (config := {maxSteps := 4000000}) only [Ss.ofList, Es.ofList, Cs.ofList, execSs, execS, lhsNames, evalEs, evalE,
+    VaxisModel.Model.GoInterp.bind, VaxisModel.Model.KeyBody.keyFields,
+    assignVals, hasErr, bindAll, List.lookup, List.map, List.append, String.reduceEq, String.reduceBEq, String.reduceAppend, ctx, termMaps, strTable, mapIndex, V.asKey,
+    reduceIte, or_false, false_or, or_self, List.length, Option.map, List.cons_append, List.nil_append, Bool.or_false, List.any,
+    andThen_norm, andThen_ret, andThen_err, andThen_ite, branch_bool,
+    binop_land, binop_eq_int, binop_band, binop_bor,
+    Bool.false_eq_true, const_vModShift, const_vModAlt, const_vModCtrl, const_vModNumLock,
+    retStr_ite, retStr_ret, VaxisModel.Model.KeyBody.noFuncs, Int.toNat_natCast, lookupKey_map1, Int.natCast_eq_zero, decide_eq_true_eq]
+  rw [lookupKey_map_id]
+  unfold encodeXterm keypadLegend keypadMask
+  generalize lookup key.keycode keypadApplicationMode = ra
+  generalize lookup key.keycode keypadNumericMode = rn
+  cases rn with
+  | none =>
+    have h := fun b1 s1 => core_body u false key key.keycode b1 s1 pam ckm (fun _ => rfl)
+    simp only [coreGen, coreEnv, VaxisModel.Model.GoInterp.bind, VaxisModel.Model.KeyBody.keyFields, ctx, termMaps, strTable,
+      List.map, List.append, List.cons_append, List.nil_append, Bool.false_eq_true, reduceIte, String.reduceEq, or_self, String.reduceAppend] at h
+    cases ra <;> cases pam <;>
+      simp only [Option.isSome, Option.getD, Bool.false_eq_true, reduceIte, Bool.and_false, Bool.false_and, Bool.true_and, Bool.and_true,
+        decide_eq_true_eq, true_and, false_and, ite_self, h] <;> (try split) <;> (first | rfl | (simp_all; done))
+  | some v =>
+    have h := fun b1 s1 => core_body u true key v b1 s1 pam ckm (fun hh => by cases hh)
+    simp only [coreGen, coreEnv, VaxisModel.Model.GoInterp.bind, VaxisModel.Model.KeyBody.keyFields, ctx, termMaps, strTable,
+      List.map, List.append, List.cons_append, List.nil_append, Bool.false_eq_true, reduceIte, String.reduceEq, or_self, String.reduceAppend] at h
+    cases ra <;> cases pam <;>
+      simp only [Option.isSome, Option.getD, Bool.false_eq_true, reduceIte, Bool.and_false, Bool.false_and, Bool.true_and, Bool.and_true,
+        decide_eq_true_eq, true_and, false_and, ite_self, h] <;> (try split) <;> (first | rfl | (simp_all; done))
+
 
 theorem const_WheelUp : List.lookup "vaxis.MouseWheelUp" termConstEnv = some (.int (VaxisModel.Gen.Mouse.MouseWheelUp : Nat)) := rfl
 theorem const_WheelDown : List.lookup "vaxis.MouseWheelDown" termConstEnv = some (.int (VaxisModel.Gen.Mouse.MouseWheelDown : Nat)) := rfl
